@@ -589,11 +589,26 @@ func ruleHeaderCrc(r *Report) {
 		if stored == nil {
 			r.Missing(rule, key, "no ReadUvarint in readRecordHeaderV4")
 		} else {
+			// all varints of the header behind the marker: lengths and stored checksum
+			var varints []*ssa.Call
+			for _, sv := range CallsIn(rd, Keys("encoding/binary.ReadUvarint")) {
+				varints = append(varints, sv.Instr.(*ssa.Call))
+			}
+			sort.Slice(varints, func(i, j int) bool { return reachableFromSite(siteOf(varints[i]), siteOf(varints[j])) })
+			if len(varints) > 3 {
+				varints = varints[len(varints)-3:]
+			}
 			fromStored := func(v ssa.Value) bool {
-				return valueDependsOn(v, func(x ssa.Value) bool {
-					ex, ok := x.(*ssa.Extract)
-					return ok && ex.Tuple == ssa.Value(stored) && ex.Index == 0
-				})
+				for _, vc := range varints {
+					vc := vc
+					if !valueDependsOn(v, func(x ssa.Value) bool {
+						ex, ok := x.(*ssa.Extract)
+						return ok && ex.Tuple == ssa.Value(vc) && ex.Index == 0
+					}) {
+						return false
+					}
+				}
+				return len(varints) > 0
 			}
 			fromCount := func(v ssa.Value) bool {
 				return valueDependsOn(v, func(x ssa.Value) bool {
@@ -617,6 +632,7 @@ func ruleHeaderCrc(r *Report) {
 				if !((fromStored(bo.X) && fromCount(bo.Y)) || (fromStored(bo.Y) && fromCount(bo.X))) {
 					continue
 				}
+				_ = iff
 				// one edge fails, success only through the other
 				for i, su := range b.Succs {
 					if !endsInFailingReturn(su) {
@@ -635,9 +651,9 @@ func ruleHeaderCrc(r *Report) {
 				}
 			}
 			if good {
-				r.OK(rule, key, stored.Pos(), "the number of bytes the stored checksum occupied is compared with the shortest encoding of its value; a mismatch fails")
+				r.OK(rule, key, stored.Pos(), "the number of header bytes consumed is compared with the shortest encoding of the parsed lengths and checksum; a mismatch fails")
 			} else {
-				r.Bad(rule, key, stored.Pos(), "the stored checksum varint is accepted in over-long form: setting the continuation bit of its last byte (a single-byte header alteration) makes the header swallow the first payload byte when that byte is 0x00; the value is unchanged, the comparison passes and the payload is returned shifted by one byte, without error (input: payload \"\\x00…\" whose header crc is >= 2^28)")
+				r.Bad(rule, key, stored.Pos(), "a varint of the header (lengths, stored checksum) is accepted in over-long form: for the lengths, setting the continuation bit of a length byte that is followed by 0x00 keeps the value and shifts the rest of the header, so the stored checksum is read from the payload (input: uncompressed file, length byte 0x10 -> 0x90, payload starting with uvarint(crc32c(altered header)) = f2 c7 93 8e 0f); for the checksum itself: setting the continuation bit of its last byte (a single-byte header alteration) makes the header swallow the first payload byte when that byte is 0x00; the value is unchanged, the comparison passes and the payload is returned shifted by one byte, without error (input: payload \"\\x00…\" whose header crc is >= 2^28)")
 			}
 		}
 	}
@@ -734,6 +750,13 @@ func ruleCompressionTable(r *Report) {
 	const rule = "compression-table"
 	r.Rule(rule, 3, "the compression constants, the compressor factory's switch and the file-header range check describe the same set of codes; accepted format versions are exactly [Version1, CurrentVersion]; both Open paths parse the file header through the one checked function")
 	p := r.P
+	// the writer emits a file header only for a code its own factory accepted
+	if fn := r.NeedFunc(rule, "recordio.FileWriter.Open"); fn != nil {
+		o := &order{r, p}
+		A := CallsIn(fn, Keys("recordio.NewCompressorForType"))
+		B := CallsIn(fn, Keys("recordio.writeFileHeader"))
+		o.OnlyAfterSuccess(rule, rule+"/recordio.FileWriter.Open/code-validated-before-header", fn, "NewCompressorForType", A, "writing the file header", B, nil)
+	}
 	consts := compressionConsts(p)
 	if len(consts) == 0 {
 		r.Missing(rule, rule+"/constants", "no CompressionType* constants")
